@@ -313,6 +313,30 @@ class ExprMixin:
                     pairs = mk_list(TList(pt), list_len(xs), z3.Lambda([j], pair.e))
                     yield from self.listcomp_over(node, gen, pairs, s2)
             return
+        if isinstance(it, ast.Call) and isinstance(it.func, ast.Name) and it.func.id == 'zip_longest' \
+                and 'zip_longest' not in st.env and len(it.args) == 2 and not it.keywords:
+            # itertools.zip_longest(a, b): max(len a, len b) pairs, the shorter side filled with None
+            # (an absent element and a None element are the same value, as in Python)
+            for s1, vals in self.ev_list(list(it.args), st):
+                if isinstance(vals, Exc):
+                    yield s1, vals
+                    continue
+                a, b = vals
+                if not isinstance(a.t, TList) or not isinstance(b.t, TList):
+                    raise OutOfSubset('zip_longest over %s, %s' % (a.t, b.t), node)
+                def opt_of(t):
+                    return t if isinstance(t, TOpt) else TOpt(t)
+                ta, tb = opt_of(a.t.elem), opt_of(b.t.elem)
+                j = z3.Int(fresh_name('zl'))
+                def side(x, tx):
+                    el = Val(x.t.elem, z3.Select(list_arr(x), j))
+                    some = el.e if isinstance(x.t.elem, TOpt) else opt_some(tx, el).e
+                    return Val(tx, z3.If(j < list_len(x), some, opt_none(tx).e))
+                pair = mk_tuple([side(a, ta), side(b, tb)])
+                la, lb = list_len(a), list_len(b)
+                pairs = mk_list(TList(TTuple([ta, tb])), z3.If(la >= lb, la, lb), z3.Lambda([j], pair.e))
+                yield from self.listcomp_over(node, gen, pairs, s1)
+            return
         for s1, src in self.ev(gen.iter, st):
             if isinstance(src, Exc):
                 yield s1, src
@@ -403,18 +427,94 @@ class ExprMixin:
         a0 = st.alloc
         mark = fresh_name('mark')
         mark_n = int(mark.split('!')[1])
-        probe.alloc = a0 + i
+        # address of the i-th new object: a0 + i when the constructor allocates nothing else,
+        # otherwise an unknown address newobj(i) >= a0 (the objects the constructor allocates itself
+        # lie between the new objects)
+        afn = z3.Function(fresh_name('newobj'), z3.IntSort(), z3.IntSort())
+        ai = afn(i)
+        probe.assume(ai >= a0)
+        probe.alloc = ai
         pc0 = len(probe.pc)
         heap0 = dict(probe.heap)
         glob0 = dict(probe.glob)
-        outs = list(self.ev(node.elt, probe))
+        call = node.elt
+        if any(isinstance(x, ast.Starred) for x in call.args) or any(k.arg is None for k in call.keywords):
+            raise OutOfSubset('star-args constructor in a comprehension', node)
+        # the arguments are evaluated first, each as one value (conditional expressions are merged
+        # into an if-then-else term over their path conditions); they must be effect-free
+        argvals = []
+        for an in list(call.args) + [k.value for k in call.keywords]:
+            alts = []
+            for s2, v in self.ev(an, probe.fork()):
+                if isinstance(v, Exc):
+                    raise OutOfSubset('constructor argument may raise in a comprehension', node)
+                if s2.heap != probe.heap and any(not s2.heap[k].eq(probe.heap[k]) for k in s2.heap if k in probe.heap):
+                    raise OutOfSubset('constructor argument has effects', node)
+                alts.append((s2, v))
+            if not alts:
+                raise OutOfSubset('constructor argument has no value', node)
+            t0 = alts[0][1].t
+            if any(v.t != t0 for _, v in alts):
+                try:
+                    uni = alts[0][1]
+                    for _, v in alts[1:]:
+                        uni, _ = self.unify(uni, v)
+                    t0 = uni.t
+                    alts = [(s2, self.coerce(v, t0)) for s2, v in alts]
+                except OutOfSubset:
+                    raise OutOfSubset('constructor argument types differ', node)
+            term = alts[-1][1]
+            if len(alts) > 1:
+                if isinstance(t0, (TObj, TNone)):
+                    raise OutOfSubset('conditional non-encodable constructor argument', node)
+                # the quantifier-free new conjuncts of each alternative are its branch condition; they must
+                # tell the alternatives apart (pairwise exclusive, jointly exhaustive) - then the remaining
+                # (quantified) conjuncts of an alternative are facts that hold whenever its condition does
+                base_n = len(probe.pc)
+                conds, qfacts = [], []
+                for s2, v in alts:
+                    extra = s2.pc[base_n:]
+                    conds.append(z3.And(*[f for f in extra if not solve.has_quantifier(f)]) if extra else z3.BoolVal(True))
+                    qfacts.append([f for f in extra if solve.has_quantifier(f)])
+                ctx = [f for f in probe.pc if not solve.has_quantifier(f)]
+                if os.environ.get('PYVC_TRACE'):
+                    for s2, v in alts:
+                        print('TRACE   extra:', [str(f)[:150].replace(chr(10), ' ') for f in s2.pc[base_n:]], 'pc', len(s2.pc), base_n, flush=True)
+                    print('TRACE ctor-arg', ast.unparse(an)[:60], 'alts', [(str(z3.simplify(c))[:200], str(v.t)) for c, (_, v) in zip(conds, alts)], flush=True)
+                for a_ in range(len(conds)):
+                    for b_ in range(a_ + 1, len(conds)):
+                        if solve.feasible(ctx + [conds[a_], conds[b_]]):
+                            if os.environ.get('PYVC_TRACE'):
+                                print('TRACE ctor-arg alternatives overlap:', z3.simplify(conds[a_]), '|||', z3.simplify(conds[b_]), flush=True)
+                            raise OutOfSubset('constructor argument alternatives are not told apart by quantifier-free conditions', node)
+                # where no alternative's condition holds (the conditions carry callee facts the solver may
+                # not be able to establish) the value is left unconstrained
+                e = fresh(t0, 'ctorarg').e
+                for k_ in range(len(alts) - 1, -1, -1):
+                    e = z3.If(conds[k_], alts[k_][1].e, e)
+                term = Val(t0, e)
+                for k_ in range(len(alts)):
+                    for f in qfacts[k_]:
+                        probe.assume(z3.Implies(conds[k_], f))
+            else:
+                # single path: keep the facts it assumed (postconditions of pure callees)
+                for f in alts[0][0].pc[len(probe.pc):]:
+                    probe.assume(f)
+            argvals.append(term)
+        pos = argvals[:len(call.args)]
+        kw = {k.arg: v for k, v in zip(call.keywords, argvals[len(call.args):])}
+        clsv = self.lookup_name(probe, call.func.id)
+        outs = list(self.construct(probe, clsv.py, pos, kw, call))
         if len(outs) != 1 or isinstance(outs[0][1], Exc) or outs[0][0] is not probe:
             raise OutOfSubset('constructor element forks or may raise', node)
         ref = outs[0][1]
         if not isinstance(ref.t, TRef):
             raise OutOfSubset('constructor element is not an object', node)
-        if not z3.simplify(probe.alloc - (a0 + i + 1)).eq(z3.IntVal(0)):
-            raise OutOfSubset('constructor in a comprehension allocates further objects', node)
+        consecutive = z3.simplify(probe.alloc - (ai + 1)).eq(z3.IntVal(0))
+        alloc_after = None
+        if not consecutive:
+            alloc_after = z3.Int(fresh_name('alloc'))
+            st.assume(alloc_after >= a0 + n)
         if any(probe.glob.get(k) is not glob0.get(k) for k in set(glob0) | set(probe.glob)):
             raise OutOfSubset('constructor in a comprehension writes global state', node)
         facts = probe.pc[pc0:]
@@ -428,9 +528,12 @@ class ExprMixin:
                 base = self.heap_arr(st, k[0], k[1])[1]
             region = z3.Const(fresh_name('HC_%s_%s' % k), probe.heap[k].sort())
             regions.append(region)
-            stored = z3.simplify(z3.Select(probe.heap[k], a0 + i))
-            facts = facts + [z3.Select(region, a0 + i) == stored]
-            st.heap[k] = z3.Lambda([r], z3.If(z3.And(a0 <= r, r < a0 + n), z3.Select(region, r), z3.Select(base, r)))
+            stored = z3.simplify(z3.Select(probe.heap[k], ai))
+            facts = facts + [z3.Select(region, ai) == stored]
+            if consecutive:
+                st.heap[k] = z3.Lambda([r], z3.If(z3.And(a0 <= r, r < a0 + n), z3.Select(region, r), z3.Select(base, r)))
+            else:
+                st.heap[k] = z3.Lambda([r], z3.If(a0 <= r, z3.Select(region, r), z3.Select(base, r)))
         # every constant invented during the probe becomes a function of i
         stored_ids = regions
         seen = {}
@@ -456,15 +559,23 @@ class ExprMixin:
         for nm, x in seen.items():
             fn = z3.Function(fresh_name('sk_' + nm.split('!')[0]), z3.IntSort(), x.sort())
             subst.append((x, fn(i)))
+        if not consecutive:
+            facts = facts + [ai >= a0, ai < alloc_after]
         body = z3.And(*facts) if facts else z3.BoolVal(True)
         if subst:
             body = z3.substitute(body, *subst)
+        if consecutive:
+            body = z3.substitute(body, (ai, a0 + i))
         if os.environ.get('PYVC_TRACE'):
-            print('TRACE listcomp_ctor changed=%s body=%s' % (changed, str(body).replace('\n', ' ')[:1500]), flush=True)
+            print('TRACE listcomp_ctor a0=%s consecutive=%s changed=%s body=%s' % (a0, consecutive, changed, str(body).replace('\n', ' ')[:1500]), flush=True)
         st.assume(z3.ForAll([i], z3.Implies(z3.And(0 <= i, i < n), body)))
-        st.alloc = a0 + n
         rt = TList(ref.t)
-        yield st, mk_list(rt, n, z3.Lambda([i], a0 + i))
+        if consecutive:
+            st.alloc = a0 + n
+            yield st, mk_list(rt, n, z3.Lambda([i], a0 + i))
+        else:
+            st.alloc = alloc_after
+            yield st, mk_list(rt, n, z3.Lambda([i], afn(i)))
 
     def bind_comp_target(self, target, v, st, line):
         if isinstance(target, ast.Name):
